@@ -19,6 +19,13 @@ def mc_stage(tier, pid='C12'):
         out['configs'].append({'cfg': name, 'states': r.distinct, 'transitions': r.generated, 'action_coverage': r.coverage()})
         out['states'] += r.distinct
         out['transitions'] += r.generated
+    if pid == 'C12':
+        # liveness under weak fairness of both threads: every session ends, a quit takes effect (the process ends with a save
+        # that describes the stream, or the whole run was already complete), a typed 'q' is handed over
+        lname = 'MC_Session_live.cfg' if tier == 'quick' else 'MC_Session_live_thorough.cfg'
+        r3 = core.tlc_must_pass(mod, os.path.join(core.SPEC, lname), 'Session liveness', timeout=3000)
+        out['configs'].append({'cfg': lname, 'states': r3.distinct, 'transitions': r3.generated,
+                               'properties': ['EverySessionEnds', 'QuitTakesEffect', 'TypedQuitIsSeen']})
     if pid == 'C15':
         # the generator model with the SaveAndResume action (pickle cursors + parse tree, fresh memo)
         cfg2 = os.path.join(core.SPEC, 'MC_OmenEnum_%s.cfg' % tier)
